@@ -29,8 +29,8 @@ func c11Gen(t *rapid.T) interface{} {
 	if !c.Corpus.Full {
 		c.Corpus = smallCorpusAround(t, c.X.docs())
 	}
-	if lib.IntN(t, 0, 2, "withXforms") == 0 {
-		c.Ts = genXforms(t, []string{"upper", "altcase", "indent", "blankline", "decorate", "trailing", "crlf", "multiblank", "dotdot", "dotdot"}, 2)
+	if lib.IntN(t, 0, 1, "withXforms") == 0 {
+		c.Ts = genXforms(t, []string{"upper", "altcase", "indent", "blankline", "decorate", "trailing", "crlf", "multiblank", "dotdot", "dotdot", "nbsp", "nbsp", "nbsp"}, 2)
 	}
 	return c
 }
